@@ -42,9 +42,27 @@ def strip_docstring(fn):
     return body
 
 
+class _DropDocstrings(ast.NodeTransformer):
+    """remove every bare string-expression statement (docstrings, string "comments"); comments and
+    whitespace never reach the AST, and positions are left out of the dump"""
+
+    def generic_visit(self, node):
+        node = super().generic_visit(node)
+        for field in ("body", "orelse", "finalbody"):
+            stmts = getattr(node, field, None)
+            if isinstance(stmts, list):
+                kept = [st for st in stmts if not (isinstance(st, ast.Expr) and isinstance(st.value, ast.Constant) and isinstance(st.value.value, str))]
+                if len(kept) != len(stmts):
+                    setattr(node, field, kept or [ast.Pass()])
+        return node
+
+
 def digest(nodes):
+    import copy
+
     if isinstance(nodes, ast.AST):
         nodes = [nodes]
+    nodes = [_DropDocstrings().visit(copy.deepcopy(n)) for n in nodes]
     text = "\n".join(ast.dump(n, annotate_fields=True, include_attributes=False) for n in nodes)
     return hashlib.sha256(text.encode()).hexdigest()[:20]
 
